@@ -22,7 +22,7 @@
    691 timer firing / release / swap decision: the observed post-state or announcements differ from what the
        component model Core/Gang.v computes from the observed pre-state *)
 From Coq Require Import List ZArith NArith Bool.
-From YK Require Import Base.Res Core.Obs Core.GangPred Core.MaxApps Core.Gang.
+From YK Require Import Base.Res Core.Obs Core.GangPred Core.MaxApps Core.Gang Core.Ledger2.
 Import ListNotations.
 Open Scope N_scope.
 
@@ -504,20 +504,24 @@ Fixpoint indexed {A} (i : N) (l : list A) : list (N * A) :=
 Definition hard_of (st : ostep) : list (N * bool) :=
   match st_op st with OpAppAdd id _ _ _ _ _ hard _ _ => [(id, hard)] | _ => [] end.
 
-Fixpoint c06_steps (i : N) (hards : list (N * bool)) (poison : list (N * N * N)) (l : list (ostate * ostep)) : list (N * N) :=
+(* [acct]: an accounting trigger (Core/Ledger.v known_trigger, Core/Ledger2.v) has happened in this history: the ledgers
+   the component model recomputes are corrupted by a recorded defect, its correspondence (691) is not judged any more *)
+Fixpoint c06_steps (i : N) (hards : list (N * bool)) (poison : list (N * N * N)) (acct : bool) (l : list (ostate * ostep)) : list (N * N) :=
   match l with
   | [] => []
   | (pre, st) :: t =>
       let hards' := hard_of st ++ hards in
       let poison' := new_poison pre st ++ poison in
+      let acct' := acct || match known_trigger_ext pre st with Some _ => true | None => false end in
       map (fun k => (i, k))
           (c06_swap_step st ++ c06_confirm_step pre st ++ c06_state poison' (st_obs st) ++
-           c06_timer_step hards' pre st ++ path_check pre st ++ counters_step pre st ++ c06_model_step hards' poison' pre st) ++
-      c06_steps (i + 1) hards' poison' t
+           c06_timer_step hards' pre st ++ path_check pre st ++ counters_step pre st ++
+           (if acct' then filter (fun k => negb (k =? 691)) (c06_model_step hards' poison' pre st) else c06_model_step hards' poison' pre st)) ++
+      c06_steps (i + 1) hards' poison' acct' t
   end.
 
 Definition c06_history (h : ohistory) : list (N * N) :=
-  map (fun k => (0, k)) (c06_state [] (h_init h)) ++ c06_steps 0 [] [] (hist_pairs h).
+  map (fun k => (0, k)) (c06_state [] (h_init h)) ++ c06_steps 0 [] [] false (hist_pairs h).
 
 Definition c06_check_all (cs : list ohistory) : list (N * N) :=
   flat_map (fun '(hi, h) => map (fun '(i, k) => (hi * 1000 + i, k)) (c06_history h)) (indexed 0 cs).
